@@ -149,6 +149,20 @@ def check(ctx, rep):
              "(and OSError) for the one entry; the statements between the handler loop and the raise contain no operation that can fail "
              "differently (a table looked up with a run-time key, a conversion)", floor=1)
     selection_failure_obligations(ctx, rep, "R12g")
+    rep.rule("R12h", "= R20d (totality): a FileNotFound can always be constructed - its constructor logs, and log() writes its line whatever characters "
+             "(per cent signs, braces) the selector in the exception text contains; otherwise the per-entry handlers of a listing meet a "
+             "TypeError/ValueError they do not catch", floor=1)
+    from .c20 import _log_line_evaluation
+    lg_ = ctx.func("GopherExceptions.log")
+    if lg_ is None:
+        rep.fail("R12h", "GopherExceptions.log", detail="log routine not found")
+    else:
+        texts_ = _log_line_evaluation(ctx, lg_)
+        failing_ = [t for t in (texts_ or []) if t.startswith("<log() raises")]
+        rep.add("R12h", f"{lg_.qualname}: total on exception texts with format characters", not failing_, ctx.where(lg_),
+                "" if not failing_ else f"for an exception text such as `'100%.txt' does not exist` {failing_[0][1:-1]}: the FileNotFound for an entry with such a name "
+                "cannot even be constructed, and the error that escapes instead is not one the listing loop catches",
+                key="R12h|log-total", nontrivial=texts_ is not None)
     dirbase = ctx.cls("handlers.dir.DirHandler")
     if dirbase is None:
         rep.fail("R12a", "DirHandler", detail="directory handler not found")
